@@ -565,7 +565,7 @@ pub fn generate(check: &str, tier: &str, seed: u64) -> Scenario {
         "C04" => gen_conc(check, seed, &mut r, &mut cr, &mut tag, true),
         "C18" => {
             let mut cfg = store_cfg(&mut cr);
-            cfg.max_file_size = *cr.pick(&[60, 300, 1000, 1 << 20]);
+            cfg.max_file_size = *cr.pick(&[60, 300, 1000, 2500, 9000, 1 << 20]);
             cfg.check_interval_ms = *cr.pick(&[10, 100, 1000, 18_000, 60_000, 3_600_000]);
             cfg.jitter = *cr.pick(&[0.0, 0.1, 0.3, 0.5, 1.0]);
             cfg.sync = match cr.below(3) {
@@ -607,6 +607,12 @@ pub fn generate(check: &str, tier: &str, seed: u64) -> Scenario {
                 1 => SyncCfg::IntervalMs(*cr.pick(&[5, 50, 60_000])),
                 _ => SyncCfg::Always,
             };
+            // a fifth of the runs use the third documented merge policy, a window of hours of the
+            // day (the simulated wall clock starts at 22:13): always open, closed, closing within
+            // two hours, opening within the hour
+            if cr.one_in(5) {
+                cfg.merge_window = Some(*cr.pick(&[(0u32, 23u32), (3, 5), (22, 23), (23, 23), (10, 21)]));
+            }
             // keep the number of sync ticks per check interval tractable
             if let SyncCfg::IntervalMs(d) = cfg.sync {
                 if cfg.check_interval_ms / d > 50 {
@@ -708,6 +714,9 @@ pub fn generate(check: &str, tier: &str, seed: u64) -> Scenario {
             };
             let big = *cr.pick(&[0, 5, 20]);
             let window = *cr.pick(&[1usize, 1, 2, 3, 8, 1000]);
+            // a third of the clients now and then send only a prefix of a request and wait for
+            // the replies that are due before sending its rest
+            let cutting = cr.one_in(3);
             let mut steps = Vec::new();
             for _ in 0..n {
                 let k = r.usize_below(nkeys);
@@ -722,7 +731,11 @@ pub fn generate(check: &str, tier: &str, seed: u64) -> Scenario {
                         Req::Del((0..m).map(|_| r.usize_below(nkeys)).collect())
                     }
                 };
-                steps.push(CStep::Send(req));
+                if cutting && r.one_in(3) {
+                    steps.push(CStep::SendCut(req, r.below(1000) as u32));
+                } else {
+                    steps.push(CStep::Send(req));
+                }
                 steps.push(CStep::Await(window - 1));
             }
             steps.push(CStep::Await(0));
